@@ -24,6 +24,10 @@ def obligations(tier):
         nn = n + 2
         obs.append(Ob(f"hexital-member-tf/SMA/tf=T2/start={start}/n={nn}", dict(tf="T2", host="hexital-member", ind=["SMA", dict(period=2)], n=nn, start=start), CFG, weight=nn, budget_s=900))
         obs.append(Ob(f"indicator/SMA/tf=T2/start={start}/n={nn}", dict(tf="T2", host="indicator", ind=["SMA", dict(period=2)], n=nn, start=2), CFG, weight=nn, budget_s=900)) if start == 2 else None
+    # three raw candles per bucket (40-second grid): a bucket keeps receiving merges after its first one
+    for host in ("indicator", "hexital", "hexital-member"):
+        nn = 7 if tier == "quick" else 8
+        obs.append(Ob(f"{host}/SMA/tf=T2/step=40s/n={nn}", dict(tf="T2", host=host, ind=["SMA", dict(period=2)], n=nn, step=40), CFG, weight=nn, budget_s=900))
     # Heikin-Ashi under a candle lifespan: the retained candles are the tail of the same recurrence, however the
     # stream was fed (also when a whole window expires within one call)
     for host in ("indicator", "hexital"):
@@ -86,7 +90,8 @@ def run(ctx, P):
     n, tf = P["n"], P["tf"]
     name, kw = P["ind"]
     _, _, Candle, _, Hexital = lib()
-    cs = mk_candles(ctx, n, zero_ok=True, start=GRID0 + 60 * P.get("start", 1))     # the HA formulas have no division: prices of exactly 0 are inside the domain
+    step = P.get("step", 60)
+    cs = mk_candles(ctx, n, zero_ok=True, step=step, start=GRID0 + step * P.get("start", 1))     # the HA formulas have no division: prices of exactly 0 are inside the domain
     if tf:
         ts = [ctx.sec_of(c.timestamp) for c in cs]
         raw = [dict(ts=b["ts"], open=b["open"], high=b["high"], low=b["low"], close=b["close"], volume=b["volume"]) for b in ref_resample(ctx, cs, ts, tf_secs(tf))]
